@@ -31,35 +31,32 @@ Fixpoint session (V : verifier) (st : N * bytes) (cs : list call) : Prop :=
 Definition pairs (cs : list call) : list (N * bytes) :=
   flat_map (fun c => [(c_src c, c_salh c); (c_tgt c, c_talh c)]) cs.
 
-(* the FULL statement of session consistency for a hash H (refuted for verify_dual_proof on headers
-   with lagging binary linking; before /repo commits d34d669 and c59ab5b also on headers as the store
-   emits them; see Refuted.v):
+(* the FULL statement of session consistency for a hash H:
 
      forall st cs, session (V H) st cs ->
      forall id a b, In (id, a) (st :: pairs cs) -> In (id, b) (st :: pairs cs) ->
      a = b \/ Collision H                                                                      *)
-(* What IS proved instead (Proofs/Sound.v, Proofs/Fork.v): whenever the OTHER pair of an accepted call
+(* With respect to well-formed histories (Proofs/Sound.v, Proofs/Fork.v): whenever the OTHER pair of an accepted call
    is a state of a well-formed history, the client's pair is a state of that same history, and two
    well-formed histories that share an accepted call agree up to the client's transaction
    (dual_proof_no_fork) — sessions against servers whose states all come from well-formed histories
    are consistent.
 
-   PROVED against an arbitrary server (Proofs/Unique.v): (U) two accepted inclusion (or last
-   inclusion) proofs for the same position against ONE unknown root carry the same leaf — the proof
-   length is a function of (i, j) since /repo commit c59ab5b; before it, over-long proofs refuted the
-   statement for verify_dual_proof_v2 and for verify_dual_proof on ordinary headers (Proofs/Refuted.v
-   family D, now rejected) — and hence READ-READ consistency: two accepted calls with the same source
-   id against one target state carry the same source Alh (dual_proof_same_target_unique,
-   dual_proof_v2_same_target_unique).
-
-   STILL OPEN for the full statement (pairs accepted under DIFFERENT states of one session):
-     (T) transport across a state advance: an accepted consistency proof from (m, R) to (n, R')
-         must carry every (i, leaf) provable against (m, R) to one provable against (n, R'). This
-         needs verify_consistency to be exact in the old SIZE against unknown roots, which it is not
-         (C08 known finding: VerifyConsistency([R2],1,2,R2,R2) accepts) — a proof-length test like the
-         one of c59ab5b. For verify_dual_proof the statement is moreover REFUTED on lagging headers
-         (source.BlTxID < target.BlTxID < sourceTxID: session_consistency_v1_refuted), where part of
-         the target tree is related to the source by nothing at all. *)
+   PROVED against an arbitrary server:
+     (U) Proofs/Unique.v — two accepted inclusion (or last inclusion) proofs for the same position
+         against ONE unknown root carry the same leaf (proof length = function of (i, j), c59ab5b);
+     (T) Proofs/Transport.v consistency_transport — an accepted consistency proof (m, R) -> (n, R')
+         carries every leaf provable at position i of (m, R) to one provable at position i of
+         (n, R') (consistency proof length pinned, 05f2785);
+     and from them the FULL statement above (Proofs/SessionProof.v):
+       session_consistency_v2               for verify_dual_proof_v2_call,
+       session_consistency_v1_nonlagging    for verify_dual_proof when every header carried by the
+                                            session's proofs has BlTxID = ID - 1.
+   REFUTED: the statement for verify_dual_proof on headers whose binary linking lags
+   (source.BlTxID < target.BlTxID < sourceTxID: Proofs/Refuted.v session_consistency_v1_refuted) —
+   there a part of the target's tree is related to the source by nothing at all.  Closed families
+   (historical witnesses in Refuted.v): d34d669 (TargetBlTxAlh), c59ab5b (over-long inclusion proofs),
+   dd8ca50 (V2 equal ids). *)
 
 (* VerifyDualProofV2 as a verifier of calls (the V2 proof carries the two headers, the inclusion and
    the consistency terms only) *)
